@@ -207,7 +207,7 @@ def run_extra(res, profiles, rules, per_count, budget, opts_list=({},)):
                     continue
                 except Exception as e:      # noqa
                     res.evaluations += 1
-                    per_count(None, data, rule, opts, p, exc=e)
+                    per_count(getattr(e, 'droop_E', None), data, rule, opts, p, exc=e)
                     continue
                 res.evaluations += 1
                 res.sig((rule, action_sig(E)))
@@ -218,8 +218,10 @@ def option_grid(rule, tier):
     if rule == 'wigm':
         g = [{}, {'arithmetic': 'fixed', 'precision': 4}, {'arithmetic': 'fixed', 'precision': 0},
              {'arithmetic': 'rational'}, {'arithmetic': 'guarded', 'precision': 6, 'guard': 6},
-             {'integer_quota': True}, {'defeat_batch': 'zero'}, {'arithmetic': 'integer'}]
-        return g if tier != 'quick' else g[:7]
+             {'integer_quota': True}, {'defeat_batch': 'zero'},
+             {'integer_quota': True, 'arithmetic': 'fixed', 'precision': 2},    # a whole-number quota met exactly (>= test)
+             {'arithmetic': 'integer'}, {'integer_quota': True, 'arithmetic': 'integer'}]
+        return g if tier != 'quick' else g[:8]
     if rule in ('meek', 'warren'):
         g = [{}, {'arithmetic': 'fixed', 'precision': 6}, {'arithmetic': 'guarded', 'precision': 6, 'guard': 4},
              {'defeat_batch': 'none'}, {'arithmetic': 'fixed', 'precision': 9, 'omega': 4}]
@@ -240,6 +242,9 @@ def counted(data, rule, opts=None, budget=5):
     signal.alarm(budget)
     try:
         E.count()
+    except Exception as e:      # noqa  the partly counted election travels with the exception (monitors may read its record)
+        e.droop_E = E
+        raise
     finally:
         signal.alarm(0)
     return E
@@ -332,7 +337,7 @@ def run_counts(res, rules, tier, seed, per_count, with_withdrawn=True, with_unde
                     continue
                 except Exception as e:      # noqa  (AssertionError of postCheck, or any crash of the count)
                     res.evaluations += 1
-                    per_count(None, data, rule, opts, p, exc=e)
+                    per_count(getattr(e, 'droop_E', None), data, rule, opts, p, exc=e)
                     continue
                 res.evaluations += 1
                 res.sig((rule, action_sig(E)))
@@ -438,7 +443,7 @@ def fr(x):
 
 
 def check_C02(res):
-    res.rule = ('every recorded action of every count (strict rankings; wigm family, meek family, qpq): credited + '
+    res.rule = ('every recorded action of every count (strict rankings; equal rankings for meek/warren; wigm family, meek family, qpq): credited + '
                 'non-transferable/residual <= N and >= N - 2 units x ballots x transfers so far; exact under rational; '
                 'no negative tally; distinct = (rule, tag sequence)')
 
@@ -483,6 +488,9 @@ def check_C02(res):
                 if a['tag'] in ('iterate',):
                     res.violation('meek distribution does not conserve: %s != %s at %s (%s %s)' % (tot, N, a['tag'], rule, opts), wit(data, rule, opts))
     run_counts(res, RULES, res.tier, res.seed, per, with_withdrawn=False)
+    # equal rankings are in scope for the parametric Meek/Warren rules (the only rules that read them)
+    run_extra(res, eq_profiles(res.tier, res.seed), ['meek', 'warren'], per, 8 if res.tier == 'quick' else 200,
+              opts_list=({}, {'arithmetic': 'fixed', 'precision': 6}, {'arithmetic': 'guarded', 'precision': 6, 'guard': 0}))
 
 
 def check_C04(res):
@@ -682,9 +690,31 @@ def check_C07(res):
     res.rule = ('every single exclusion is of a lowest hopeful (within surplus for meek family; lowest quotient for qpq); every tie among '
                 'the lowest is logged; a record without tie actions is unchanged under every tie order (n<=4); distinct = (rule, tags)')
 
+    def batches(E, data, rule, opts):
+        "after every exclusion of a batch, the continuing and elected candidates can still fill the seats"
+        prev = None
+        for a in E.erecord['actions']:
+            if 'cstate' not in a:
+                continue
+            if prev is not None and a['tag'] == 'defeat' and any(k in a['msg'].lower() for k in ('sure loser', 'certain loser', 'batch')):
+                # (the statutory exclusion of undeclared write-ins is not a batch of sure losers: it may leave seats unfillable)
+                newly = [cid for cid, c in a['cstate'].items() if c['state'] == 'defeated' and prev['cstate'][cid]['state'] == 'hopeful']
+                left = sum(1 for c in a['cstate'].values() if c['state'] in ('hopeful', 'elected'))
+                if newly and left < E.nSeats:
+                    res.violation('exclusion of %s leaves %d continuing/elected candidates for %d seats (%s %s)' % (
+                        newly, left, E.nSeats, rule, opts), wit(data, rule, opts))
+                    return
+            prev = a
+
     def per(E, data, rule, opts, p, exc=None):
         if exc is not None:
+            if E is not None and not isinstance(exc, Timeout):
+                try:
+                    batches(E, data, rule, opts)
+                except Exception:     # noqa  a record too broken to read is C19's business
+                    pass
             return
+        batches(E, data, rule, opts)
         acts = [a for a in E.erecord['actions']]
         prev = None
         for i, a in enumerate(acts):
@@ -736,6 +766,11 @@ def check_C07(res):
                     res.violation('no tie logged, yet the record changes with tie order %s (%s %s)' % (list(perm), rule, opts), wit(d2, rule, opts, {'base_blt': data}))
                     break
     run_counts(res, RULES, res.tier, res.seed, per, with_withdrawn=False)
+    # batches of sure losers: Minneapolis with undeclared write-ins, and the batch-rich profiles
+    run_counts(res, ['mpls'], res.tier, res.seed + 7, per, with_withdrawn=True, with_undeclared=True, grid=False,
+               time_budget=6 if res.tier == 'quick' else 120)
+    run_extra(res, batch_profiles(res.tier, res.seed), ['wigm-prf-batch', 'cfer-batch', 'mpls', 'meek'], per,
+              8 if res.tier == 'quick' else 300, opts_list=({},))
     # tie-rich domain for the tie procedures
     t0 = time.time()
     for p in tie_rich_profiles(res.tier, res.seed):
@@ -987,7 +1022,8 @@ def check_C17(res):
 
 
 def check_C20(res):
-    res.rule = 'each election is counted after 1-3 random other elections (other rules/arithmetics/precisions/displays) and again fresh: identical dump/report/json'
+    res.rule = ('each election is counted after 1-3 random other elections (other rules/arithmetics/precisions/displays) and again fresh: '
+                'identical dump/report/json; the same profile object counted twice in fresh elections (incl. equal rankings for meek/warren): identical')
     rng = random.Random(res.seed)
     profs = small_profiles(res.tier, res.seed, False, False)
     budget = 25 if res.tier == 'quick' else 600
@@ -1028,6 +1064,40 @@ def check_C20(res):
         res.sig((rule, str(sorted(opts.items())), hash(ref) % 1000))
         if again != ref:
             res.violation('record differs after other elections were counted in between (%s %s)' % (rule, opts), wit(data, rule, opts))
+    # the same profile OBJECT counted again in a fresh election (the profile must come out of a count unchanged)
+    t1 = time.time()
+    budget2 = 10 if res.tier == 'quick' else 300
+    pool = [(p, RULES) for p in profs[:400]] + [(p, ['meek', 'warren']) for p in eq_profiles(res.tier, res.seed)]
+    rng.shuffle(pool)
+    for p, rules in pool:
+        if time.time() - t1 > budget2:
+            break
+        data = pdata(p)
+        rule = rng.choice(rules)
+        opts = rng.choice(option_grid(rule, 'quick'))
+        if opts.get('arithmetic') == 'rational' and rule in MEEK_FAMILY:
+            continue
+        try:
+            prof = ElectionProfile(data=data)
+            recs = []
+            for _ in range(2):
+                o = {'rule': rule}
+                o.update(opts)
+                E = Election(prof, o)
+                signal.alarm(5)
+                try:
+                    E.count()
+                finally:
+                    signal.alarm(0)
+                recs.append(E.report() + E.dump() + E.json())
+        except Exception:
+            res.skipped += 1
+            continue
+        res.evaluations += 1
+        res.sig((rule, 'reuse', hash(recs[0]) % 1000))
+        if recs[0] != recs[1]:
+            res.violation('counting the same profile object again in a fresh election gives a different record (%s %s)' % (rule, opts),
+                          wit(data, rule, opts))
 
 
 CHECKS = {'C01': check_C01, 'C02': check_C02, 'C04': check_C04, 'C06': check_C06, 'C07': check_C07, 'C08': check_C08,
